@@ -286,6 +286,19 @@ pub fn act_bracket(sim: &mut Sim, ctx: &mut Ctx, kind: BracketKind) -> Option<Tx
     let lb = ctx.rng.pick(&liabs).clone();
     let a_info = ctx.world.bank_info(&ab.bank_pk)?.clone();
     let l_info = ctx.world.bank_info(&lb.bank_pk)?.clone();
+    // operator churn aimed at the bracket: the bank about to be seized from was switched to
+    // reduce-only after the deposit (its collateral then counts for nothing towards NEW borrowing,
+    // but fully for liquidation purposes - seizing it is still seizing value)
+    if ctx.rng.chance(1, 6) && !a_info.keys.bank.eq(&l_info.keys.bank) {
+        let opt = marginfi_type_crate::types::BankConfigOpt {
+            operational_state: Some(marginfi_type_crate::types::BankOperationalState::ReduceOnly),
+            ..Default::default()
+        };
+        let o = sim.apply(Event::Tx(Tx::one("group_admin", ix::configure_bank(g.key, g.admins.admin, a_info.keys.bank, opt))));
+        if o.map(|o| o.ok()).unwrap_or(false) {
+            sim.stats.fault("tx_bracket_seized_bank_made_reduce_only");
+        }
+    }
     let a_bank = model::bank_of(&sim.store, &ab.bank_pk)?;
     let l_bank = model::bank_of(&sim.store, &lb.bank_pk)?;
     let debt = liab_amount_u64(&l_bank, &lb);
